@@ -391,106 +391,25 @@ func (c *Ctx) ruleC14CycleGuard() {
 		r.Undecided("C14-CYCLE-GUARD", "anchor", "scanner.Stack.Push/Pop not found", "")
 		return
 	}
-	pk := push.Pkg
-	// the set field: map[string]struct{} of Stack
-	var setField *types.Var
-	if tn := c.P.LookupType("scanner", "Stack"); tn != nil {
-		if st, ok := tn.Type().Underlying().(*types.Struct); ok {
-			for i := 0; i < st.NumFields(); i++ {
-				if m, ok := st.Field(i).Type().Underlying().(*types.Map); ok {
-					if b, ok := m.Key().Underlying().(*types.Basic); ok && b.Kind() == types.String {
-						if s, ok := m.Elem().Underlying().(*types.Struct); ok && s.NumFields() == 0 {
-							setField = st.Field(i)
-						}
-					}
-				}
-			}
-		}
-	}
-	if setField == nil {
-		r.Bad("C14-CYCLE-GUARD", "set", "Stack has no set of file names", c.pos(push.Decl.Pos()))
-		return
-	}
-	cf := buildCFG(push.Decl.Body)
-	var guard *ast.IfStmt
-	var keyPath string
-	var appendStmt, insert *ast.AssignStmt
-	ast.Inspect(push.Decl.Body, func(n ast.Node) bool {
-		switch x := n.(type) {
-		case *ast.IfStmt:
-			if as, ok := x.Init.(*ast.AssignStmt); ok && len(as.Lhs) == 2 && len(as.Rhs) == 1 {
-				if b, k, isIdx := indexOn(pk, as.Rhs[0]); isIdx && fieldSel(pk, b) == setField && returnsNonNilError(pk, x.Body.List) {
-					if id, ok := ast.Unparen(x.Cond).(*ast.Ident); ok && pk.TypesInfo.Uses[id] == pk.TypesInfo.Defs[as.Lhs[1].(*ast.Ident)] {
-						guard, keyPath = x, accessPath(pk, k)
-					}
-				}
-			}
-		case *ast.AssignStmt:
-			if len(x.Lhs) == 1 && len(x.Rhs) == 1 {
-				if call, ok := ast.Unparen(x.Rhs[0]).(*ast.CallExpr); ok {
-					if id, ok := call.Fun.(*ast.Ident); ok && id.Name == "append" {
-						if _, isSlice := pk.TypesInfo.TypeOf(x.Lhs[0]).Underlying().(*types.Slice); isSlice && appendStmt == nil {
-							appendStmt = x
-						}
-					}
-				}
-				if b, k, isIdx := indexOn(pk, x.Lhs[0]); isIdx && fieldSel(pk, b) == setField {
-					insert = x
-					if accessPath(pk, k) != keyPath {
-						keyPath += "!=" + accessPath(pk, k)
-					}
-				}
-			}
-		}
-		return true
-	})
-	switch {
-	case guard == nil:
-		r.Bad("C14-CYCLE-GUARD", "Push lookup", "Push does not refuse a file that is already on the stack", c.pos(push.Decl.Pos()))
-	case appendStmt == nil || !cf.dominatedBy(appendStmt, guard.Init):
-		r.Bad("C14-CYCLE-GUARD", "Push lookup", "the scanner is pushed on a path that does not pass the already-on-stack test", c.pos(push.Decl.Pos()))
-	default:
-		r.Ok("C14-CYCLE-GUARD", "Push lookup", "the lookup (hit -> error) dominates the append", c.pos(guard.Pos()))
-	}
-	if insert != nil && !strings.Contains(keyPath, "!=") && guard != nil && cf.dominatedBy(insert, guard.Init) {
-		r.Ok("C14-CYCLE-GUARD", "Push insert", "the looked-up name is inserted after the push", c.pos(insert.Pos()))
+	// Push and Pop are read off their abstract evaluation (stackeval.go): the facts are about terms, not about the
+	// layout of the code
+	sf := c.stackFacts()
+	if sf.err != "" {
+		r.Undecided("C14-CYCLE-GUARD", "Stack", sf.err, c.pos(push.Decl.Pos()))
 	} else {
-		r.Bad("C14-CYCLE-GUARD", "Push insert", "the name tested is not the name inserted, or no insertion follows the push", c.pos(push.Decl.Pos()))
-	}
-	// key derives from the pushed scanner's file name
-	if guard != nil {
-		nameOK := false
-		ast.Inspect(push.Decl.Body, func(n ast.Node) bool {
-			if as, ok := n.(*ast.AssignStmt); ok && len(as.Lhs) == 1 && len(as.Rhs) == 1 && accessPath(pk, as.Lhs[0]) == strings.Split(keyPath, "!=")[0] {
-				s := exprString(as.Rhs[0])
-				if strings.HasSuffix(s, ".Name()") && strings.Contains(s, "file") || strings.Contains(s, "File()") {
-					nameOK = true
-				}
-			}
-			return true
-		})
-		if nameOK {
-			r.Ok("C14-CYCLE-GUARD", "key", "the set is keyed by the file name of the pushed scanner", c.pos(guard.Pos()))
-		} else {
-			r.Bad("C14-CYCLE-GUARD", "key", "the recursion set is not keyed by the pushed scanner's file name", c.pos(guard.Pos()))
-		}
-	}
-	// Pop deletes
-	del := false
-	ast.Inspect(pop.Decl.Body, func(n ast.Node) bool {
-		if call, ok := n.(*ast.CallExpr); ok {
-			if id, ok := call.Fun.(*ast.Ident); ok && id.Name == "delete" && len(call.Args) == 2 && fieldSel(pop.Pkg, call.Args[0]) == setField {
-				if s := exprString(call.Args[1]); strings.HasSuffix(s, ".Name()") {
-					del = true
-				}
+		verdict := func(key, okText, bad string, pos string) {
+			if bad == "" {
+				r.Ok("C14-CYCLE-GUARD", key, okText, pos)
+			} else {
+				r.Bad("C14-CYCLE-GUARD", key, bad, pos)
 			}
 		}
-		return true
-	})
-	if del {
-		r.Ok("C14-CYCLE-GUARD", "Pop forgets", "Pop deletes the popped scanner's file name: repeated non-cyclic includes stay legal", c.pos(pop.Decl.Pos()))
-	} else {
-		r.Bad("C14-CYCLE-GUARD", "Pop forgets", "Pop does not delete the popped file name from the set (a second, non-cyclic include of the same file is refused) ", c.pos(pop.Decl.Pos()))
+		pp, po := c.pos(push.Decl.Pos()), c.pos(pop.Decl.Pos())
+		verdict("Push lookup", fmt.Sprintf("on each of the paths of Push that append to the stack the file name was looked up in the set and missed (%d paths evaluated)", sf.pushPaths), sf.pushGuard, pp)
+		verdict("Push refuses", "a hit of that lookup returns a non-nil error without pushing", sf.pushRefuse, pp)
+		verdict("Push insert", "the same name (same term) is inserted into the set on every such path", sf.pushInsert, pp)
+		verdict("key", "the name is derived from the scanner that is pushed", sf.pushKey, pp)
+		verdict("Pop forgets", "Pop deletes the name derived from the popped scanner from the set: repeated non-cyclic includes stay legal", sf.popDeletes, po)
 	}
 	// processInclude
 	if pi := c.fn("core", "JApiCore.processInclude"); pi != nil {
